@@ -42,6 +42,7 @@ HStride(t) == IF Tier = "quick" THEN HistTable[t].qs ELSE 1
 NTriples(t) == LET n == Count(HTy(t))  s == HStride(t)  off == Seed % s IN (n * n * n - off + s - 1) \div s
 NHist(t) == NTriples(t) * Len(TemplatesFor(HTy(t)))
 
+MixCount(m) == Count(MixTable[m].l) * Count(MixTable[m].r)
 J(kind, t, c) == [kind |-> kind, t |-> t, c |-> c]
 Jobs ==
   IF Tier = "deep" THEN {J("deep", t, c) : t \in 1..Len(DeepTable), c \in 1..NDeep}
@@ -54,6 +55,9 @@ Jobs ==
        \cup {J("prov", 0, c) : c \in 1..Len(ProvTable)}
        \cup {J("alias", t, 1) : t \in 1..NT}
        \cup UNION {{J("hist", t, c) : c \in 1..NChunks(NHist(t), HPB)} : t \in 1..NH}
+       \cup UNION {{J("mixed", m, c) : c \in 1..NChunks(MixCount(m), 5)} : m \in 1..Len(MixTable)}
+       \cup {J("cassign", 1, c) : c \in 1..NChunks(Count(NumStr) * Count(NumStr), 12)}
+       \cup {J("cassign", 2, c) : c \in 1..NChunks(Count(CaNumTy) * Count(CaNumTy), 12)}
 
 RECURSIVE Flat(_, _)
 Flat(ss, i) == IF i > Len(ss) THEN <<>> ELSE ss[i] \o Flat(ss, i + 1)
@@ -96,6 +100,19 @@ Result(j) ==
     [] j.kind = "trans" -> [apps |-> <<>>, laws |-> TransViolations(Ty(j.t)), npairs |-> Count(Ty(j.t))]
     [] j.kind = "prov" -> [apps |-> ProvApps(ProvTable[j.c]), laws |-> ProvLaws(ProvTable[j.c]), npairs |-> 1]
     [] j.kind = "alias" -> [apps |-> AliasApps(Ty(j.t)), laws |-> {}, npairs |-> 1]
+    [] j.kind = "mixed" ->
+         LET nr == Count(MixTable[j.t].r)  lo == (j.c - 1) * 5  hi == Min3(j.c * 5, MixCount(j.t)) - 1
+             as == [x \in 1..(hi - lo + 1) |-> MixApp(j.t, (lo + x - 1) \div nr, (lo + x - 1) % nr)] IN
+         [apps |-> Flat([x \in 1..Len(as) |-> as[x].apps], 1), laws |-> UnionLaws(as, 1), npairs |-> Len(as)]
+    [] j.kind = "cassign" ->
+         LET ty == IF j.t = 1 THEN NumStr ELSE CaNumTy  n == Count(ty)
+             lo == (j.c - 1) * 12  hi == Min3(j.c * 12, n * n) - 1
+             forms(x) == IF j.t = 1 THEN CaStrForms(ty.vs[(x \div n) + 1], ty.vs[(x % n) + 1])
+                         ELSE CaNumForms(Nth(ty, x \div n), Nth(ty, x % n))
+             fs == Flat([x \in 1..(hi - lo + 1) |-> forms(lo + x - 1)], 1)
+             as == [i \in 1..Len(fs) |-> CaApp(fs[i])] IN
+         [apps |-> [i \in 1..Len(as) |-> [ok |-> as[i].ok, stuck |-> as[i].stuck, item |-> as[i].item]],
+          laws |-> UnionLaws(as, 1), npairs |-> hi - lo + 1]
     [] j.kind = "hist" ->
          LET ty == HTy(j.t)  n == Count(ty)  s == HStride(j.t)  off == Seed % s
              tpls == TemplatesFor(ty)  nt == Len(tpls)
@@ -121,6 +138,8 @@ Outcome(j) ==
       nstuck == Len(SelectSeq(apps, LAMBDA x : x.stuck))
       items == IF Len(oks) = 0 THEN <<>> ELSE [i \in 1..Len(oks) |-> oks[i].item]
       shape == IF j.kind = "deep" THEN Shape(DeepTable[j.t]) ELSE IF j.kind = "hist" THEN Shape(HTy(j.t))
+               ELSE IF j.kind = "mixed" THEN Shape(MixTable[j.t].l) \o "~" \o Shape(MixTable[j.t].r)
+               ELSE IF j.kind = "cassign" THEN (IF j.t = 1 THEN "numstr" ELSE Shape(CaNumTy))
                ELSE IF j.t = 0 THEN "-" ELSE Shape(Ty(j.t)) IN
   [viol |-> {l.n : l \in {x \in r.laws : ~x.ok}} \cup (IF nstuck > 0 THEN {"applicable-operator-stuck"} ELSE {}),
    rec |-> [id |-> j, shape |-> shape, items |-> items, npairs |-> r.npairs, dropped |-> Len(apps) - Len(oks) - nstuck,
@@ -145,8 +164,10 @@ RunProv  == RunKind("prov")
 RunAlias == RunKind("alias")
 RunDeep  == RunKind("deep")
 RunHist  == RunKind("hist")
+RunMixed == RunKind("mixed")
+RunCAssign == RunKind("cassign")
 
-Next == RunPairs \/ RunDiag \/ RunNeg \/ RunDivN \/ RunTrans \/ RunProv \/ RunAlias \/ RunDeep \/ RunHist
+Next == RunPairs \/ RunDiag \/ RunNeg \/ RunDivN \/ RunTrans \/ RunProv \/ RunAlias \/ RunDeep \/ RunHist \/ RunMixed \/ RunCAssign
 Spec == Init /\ [][Next]_vars
 
 NoLawViolated == viol = {}
@@ -154,4 +175,7 @@ NoLawViolated == viol = {}
 \* distinct indices of a type denote distinct literals; the declarations are printed once for the harness
 ASSUME \A t \in 1..NT : Count(Ty(t)) > 64 \/ \A i, k \in 0..(Count(Ty(t)) - 1) : i # k => Nth(Ty(t), i) # Nth(Ty(t), k)
 ASSUME PrintT(<<"DECLS", ToJson(Decls)>>)
+\* the alias map is strictly increasing in the spec value (the replayer checks that it is in the real values, too)
+ASSUME \A i \in 1..(Len(Alias) - 1) : Alias[i].spec < Alias[i + 1].spec
+ASSUME PrintT(<<"ALIAS", ToJson(Alias)>>)
 =============================================================================
